@@ -44,6 +44,16 @@ CHECKS = {
              "function, top-level or nested, yields a record (argument digests before/after, call key, outcome digest); "
              "Trace_Session rejects argument-modified and same-call-different-outcome.",
         ref="4/C15"),
+    "C10": dict(
+        technique="TLA+ grammar recogniser + encoding specification (Chord.tla); TLC enumerates label ASTs, replayed "
+                  "into the code; fuzzed strings judged by a TLA+ trace spec",
+        text="Chord.tla holds a recursive-descent recogniser for root[:shorthand][(degrees)][/bass]|N|X over a token "
+             "alphabet and the encoding defined from degree lists. TLC enumerates ASTs (35 root spellings; every shorthand x "
+             "every single degree edit x basses; pairs of edits), checks well-formedness, strict-only-rejects and "
+             "Parse o Tokens = id, and exports the specified encodings for the 4 flag settings; each is rendered and run "
+             "through validate/split/join/encode/encode_many. Hostile and mutated strings are executed and judged by "
+             "Trace_C10 (acceptance = recogniser, value = encoder, only ok/InvalidChordException allowed, round trip).",
+        ref="4/C10"),
 }
 
 PENDING = "check not built yet (build in progress; see DESIGN.md section 10)"
